@@ -4,7 +4,7 @@ CFG = {
     "audit": "Norad/Audit/C01.lean",
     "rule": ("fonts built through the public API (every int-or-float font-info field and list, unitsPerEm, ~100 other font-info fields from a seed, guidelines with "
              "identifiers and libs, lib with every plist type incl. empty arrays/dicts, blank strings, keys with line breaks, groups, kerning, feature text with CR/LF/CRLF "
-             "mixes, 1..5 layers with colour-only / lib-only layer info and a renamed default layer, glyphs of moderate variety, data and images) x WriteOptions "
+             "mixes, 1..5 layers with colour-only / lib-only layer info and a renamed default layer, glyphs with every legal contour shape (closed contours from line / curve with 0-2 off-curves / qcurve with 0-6 off-curves in every rotation of the cyclic point list, all-off-curve contours, open contours; the point-type distribution is printed into the evidence as pt-* / seam-offcurves-* tags), data and images) x WriteOptions "
              "(tab/space x width 0,1,2,4,8 x quote style); part 1 is exhaustive over a boundary pool of ~130 doubles (one and two ulps and +-eps around 0, +-1, 2, 0.5, 1.5, 2.5, "
              "1000, +-2^31, +-2^31+-1, eps, 3e9, 1e300, 2^53, -0.0) put into kerning, ascender, a blue-values pair and unitsPerEm; Font::save_with_options then Font::load; "
              "compared: which files exist, metainfo, integer-vs-real of every number written to fontinfo.plist and kerning.plist, layercontents, colour strings, feature bytes, "
